@@ -77,8 +77,38 @@ def deblock_image_cases(rng, sizes, strengths_per_size):
     for (w, h) in sizes:
         for _ in range(strengths_per_size):
             s = rng.randint(1, 12)
-            style = rng.randint(0, 3)
-            if style == 0:      # random content
+            style = rng.randint(0, 8)
+            if style == 4:      # rows constant: a staircase down the rows with plateaus (adjacent rows often equal)
+                px, v = [], rng.randint(0, 255)
+                for y in range(h):
+                    if rng.randint(0, 2) == 0:
+                        v = max(0, min(255, v + rng.choice([-80, -40, -17, -8, -3, 3, 8, 17, 40, 80])))
+                    px += [v] * w
+            elif style == 5:    # columns constant: a staircase across the columns with plateaus
+                row, v = [], rng.randint(0, 255)
+                for x in range(w):
+                    if rng.randint(0, 2) == 0:
+                        v = max(0, min(255, v + rng.choice([-80, -40, -17, -8, -3, 3, 8, 17, 40, 80])))
+                    row.append(v)
+                px = row * h
+            elif style == 6:    # the rows / columns next to every block edge are equal pairwise (B == C), outer ones differ
+                rowv = [rng.randint(0, 255) for _ in range(h)]
+                colv = [rng.randint(-20, 20) for _ in range(w)]
+                for y in range(h):
+                    if y % 8 == 0 and y > 0:
+                        rowv[y] = rowv[y - 1]
+                for x in range(w):
+                    if x % 8 == 0 and x > 0:
+                        colv[x] = colv[x - 1]
+                flat = rng.randint(0, 1)
+                px = [max(0, min(255, rowv[y] + (0 if flat else colv[x]))) for y in range(h) for x in range(w)]
+            elif style == 7:    # two-valued
+                a, b = rng.randint(0, 255), rng.randint(0, 255)
+                px = [rng.choice([a, b]) for _ in range(w * h)]
+            elif style == 8:    # smooth gradient
+                gx, gy, b0 = rng.randint(-9, 9), rng.randint(-9, 9), rng.randint(0, 255)
+                px = [max(0, min(255, b0 + gx * x + gy * y)) for y in range(h) for x in range(w)]
+            elif style == 0:      # random content
                 px = [rng.randint(0, 255) for _ in range(w * h)]
             elif style == 1:    # blocky: constant 8x8 blocks (so edges carry steps)
                 bl = {}
@@ -104,7 +134,7 @@ class C09(Prop):
     thm_module = "H263V.Thm.C09"
     rule = ("K lines: four samples + strength through the real scalar kernel and through each of the 8 lanes of the real vector "
             "kernel vs. the Lean model (all 9^4 x 12 patterns over a 9-point value set, plus random); D lines: whole images "
-            "(every width x height of the tier's range, four content styles) through deblock::deblock vs. the model. "
+            "(every width x height of the tier's range, nine content styles incl. row- and column-constant staircases, equal rows / columns next to block edges, two-valued and gradient images) through deblock::deblock vs. the model. "
             "Non-trivial: the filter changes at least one sample (model output differs from input). Distinct by case text.")
     assumptions = ["wide::i16x8 operations are lane-wise and wrap (modelled with explicit wrap16, proved not to occur)",
                    "input immutability is a type-level fact (&[u8]); the harness additionally compares the input before/after"]
